@@ -45,6 +45,32 @@ def _define_int(text, name):
     return int(m.group(1))
 
 
+def _escape_table_via_helper(stanza, body):
+    """second spelling: both passes ask a static helper `const char *f(char c)` for the replacement
+    (`if (c == 'x') return "…";` chain or `case 'x': return "…";`, NULL otherwise), the length pass
+    adds strlen of it or 1, the copy pass copies strlen bytes of it or the character itself"""
+    for m in re.finditer(r"\bstatic\s+const\s+char\s*\*\s*(\w+)\s*\(\s*(?:const\s+)?char\s+(\w+)\s*\)\s*\{", stanza):
+        f, c = m.group(1), m.group(2)
+        calls = re.findall(r"(\w+)\s*=\s*%s\s*\(\s*\*src\s*\)" % re.escape(f), body)
+        if len(calls) != 2 or calls[0] != calls[1]:
+            continue
+        e = calls[0]
+        fb = fn_body(stanza, f)
+        inner = re.sub(r"\s+", " ", fb[fb.index("{") + 1:fb.rindex("}")]).strip()
+        pairs = re.findall(r"(?:if \( ?%s == '(\\?.)' ?\)|case '(\\?.)' ?:) return \"((?:\\.|[^\"\\])*)\" ?;" % re.escape(c), inner)
+        rest = re.sub(r"(?:else )?(?:if \( ?%s == '(\\?.)' ?\)|case '(\\?.)' ?:) return \"((?:\\.|[^\"\\])*)\" ?;" % re.escape(c), "", inner)
+        rest = re.sub(r"switch \( ?%s ?\) \{|default ?:|\}|else" % re.escape(c), "", rest).strip()
+        if not pairs or rest != "return NULL;":
+            continue
+        b = re.sub(r"\s+", "", body)
+        lenpass = re.search(r"len\+=%s(!=NULL)?\?strlen\(%s\):1;" % (e, e), b)
+        copypass = re.search(r"if\(%s(!=NULL)?\)\{(\w+)=strlen\(%s\);memcpy\(dst,%s,\2\);dst\+=\2;\}else\{\*dst=\*src;dst\+\+;\}" % (e, e, e), b)
+        if not lenpass or not copypass:
+            continue
+        return sorted((_c_string(a or a2)[0], _c_string(r)) for a, a2, r in pairs)
+    raise ExtractError("_escape_xml: no replacement cases found")
+
+
 def _escape_table(stanza):
     body = fn_body(stanza, "_escape_xml")
     loops = body.split("for (")
@@ -72,7 +98,7 @@ def _escape_table(stanza):
             raise ExtractError("_escape_xml: dst advances by %s after writing %r" % (m.group(3), rep))
         table[c] = rep
     if not table:
-        raise ExtractError("_escape_xml: no replacement cases found")
+        return _escape_table_via_helper(stanza, body)
     if set(lens) != set(table) or any(lens[c] != len(table[c]) for c in table):
         raise ExtractError("_escape_xml: length pass %r and copy pass %r disagree"
                            % (lens, {k: len(v) for k, v in table.items()}))
